@@ -22,11 +22,11 @@ import (
 )
 
 type sigintScenario struct {
-	K       int    `json:"k"`       // requests in flight when SIGINT is sent
-	Hold    string `json:"hold"`    // hook at which requests are held ("" = none)
-	HoldMs  int    `json:"holdMs"`
-	Kinds   []reqKind `json:"kinds"`
-	After   bool   `json:"after"`   // send SIGINT only after all responses arrived
+	K      int       `json:"k"`    // requests in flight when SIGINT is sent
+	Hold   string    `json:"hold"` // hook at which requests are held ("" = none)
+	HoldMs int       `json:"holdMs"`
+	Kinds  []reqKind `json:"kinds"`
+	After  bool      `json:"after"` // send SIGINT only after all responses arrived
 }
 
 func countLines(path, needle string) int {
